@@ -58,6 +58,11 @@ fn main() {
             }
         }
     }
+    // the environment seam: every getenv of the process goes through envseam::__wrap_getenv
+    if os == "linux" {
+        println!("cargo:rustc-link-arg=-Wl,--wrap=getenv");
+        println!("cargo:rustc-link-arg=-Wl,--wrap=secure_getenv");
+    }
     let Some(version) = version.filter(|_| !off) else {
         std::fs::write(&out, "pub const FFI_YIELD_POINTS: usize = 0;\n").unwrap();
         return;
